@@ -250,7 +250,7 @@ func judgeC07(c *fw.Ctx, sc *SnapCase) {
 	}
 }
 
-var prC07 = &Profile{Sets: defaultSets, Kinds: []string{"star", "comb", "comb", "sliver", "angle", "rectholes", "rectholes", "spiky", "spiky", "grow", "junk", "motif", "border"}, MinIDs: 1, Huge: true}
+var prC07 = &Profile{Sets: defaultSets, Kinds: []string{"star", "comb", "comb", "sliver", "angle", "rectholes", "rectholes", "spiky", "spiky", "grow", "junk", "motif", "border"}, MinIDs: 1, Huge: true, Zoo: true, TileWidth: true}
 
 // c07HashPass: run by the parent in fresh processes; recomputes the result hash of every case.
 func c07HashPass(args []string) {
